@@ -88,6 +88,10 @@ def _is_plain_const(v: ast.AST) -> bool:
         return all(_is_plain_const(x) for x in v.elts)
     if isinstance(v, ast.Call) and q.dotted(v.func) == "frozenset" and len(v.args) == 1:
         return _is_plain_const(v.args[0])
+    if isinstance(v, ast.BinOp) and isinstance(v.op, (ast.Add, ast.Sub, ast.Mult, ast.FloorDiv, ast.LShift, ast.Pow)):
+        return _is_plain_const(v.left) and _is_plain_const(v.right)   # 10 * 1024, 1 << 20, "a" + "b"
+    if isinstance(v, ast.UnaryOp) and isinstance(v.op, ast.USub):
+        return _is_plain_const(v.operand)
     return False
 
 
@@ -785,3 +789,18 @@ def call_arg(repo: Repo, fi: FuncInfo, call: ast.Call, index: int, name: str) ->
         if k.arg == name:
             return k.value
     return None
+
+
+def fold_with_module(module, e: ast.AST, depth: int = 4):
+    """q.fold of ``e`` where unknown plain names are looked up among the module-level assignments (folded in turn).
+    Raises q.NotFoldable when that does not help."""
+    env: Dict[str, object] = {}
+    for _ in range(depth + 1):
+        try:
+            return q.fold(e, env)
+        except q.NotFoldable as ex:
+            nm = str(ex)
+            if nm in env or nm not in module.assigns or depth <= 0:
+                raise
+            env[nm] = fold_with_module(module, module.assigns[nm], depth - 1)
+    raise q.NotFoldable(q.unparse(e))
